@@ -272,16 +272,19 @@ class BaseObserver(EventDispatcher):
         return self._emitters
 
     def start(self) -> None:
-        for emitter in self._emitters.copy():
-            if emitter.is_alive():
-                # Already running: start() is being retried after an earlier attempt failed part-way.
-                continue
-            try:
-                emitter.start()
-            except Exception:
-                self._remove_emitter(emitter)
-                raise
-        super().start()
+        # Under the lock, like every other call that touches the emitters: a concurrent stop() or
+        # unschedule() either sees all of them started, or runs first and leaves nothing to start.
+        with self._lock:
+            for emitter in self._emitters.copy():
+                if emitter.is_alive():
+                    # Already running: start() is being retried after an earlier attempt failed part-way.
+                    continue
+                try:
+                    emitter.start()
+                except Exception:
+                    self._remove_emitter(emitter)
+                    raise
+            super().start()
 
     def schedule(
         self,
